@@ -295,6 +295,6 @@ let handle (line : string) (kind : string) (args : string list) (obs : string) :
   | "perft" -> handle_perft line args obs
   | "zkeys" | "bscript" -> Dispatch2.handle line kind args obs
   | "absearch" | "halt" -> Dispatch3.handle line kind args obs
-  | "fenrt" | "decode" | "parsemove" | "parsesq" | "engmove" | "engfen" | "ucipos" -> Dispatch4.handle line kind args obs
+  | "fenrt" | "decode" | "parsemove" | "parsesq" | "engmove" | "engfen" | "enggame" | "ucipos" -> Dispatch4.handle line kind args obs
   | "ttseq" -> Dispatch5.handle line kind args obs
   | _ -> Dispatch6.handle line kind args obs
